@@ -206,6 +206,53 @@ theorem reloads_parts_from_loaded (evs : List (Outcome Pol × Option Sel × GeoL
             rw [hg, hgeo, hl]; rfl
       · exact Or.inr ⟨ev, List.mem_cons_of_mem _ hev, hg⟩
 
+/-- **Every subset of failing loading steps.**  One SIGHUP in which an arbitrary subset of the three loading
+steps {configuration, phantom subnets file, GeoIP databases} fails: if the configuration is in the subset
+nothing changes; otherwise the address policies are the new ones **whatever the other two did**, and each of
+the other two parts is the new version exactly when its own step is not in the subset.  (The parts are
+independent: no failure of one part keeps another part's new version out or lets its own result in.) -/
+theorem reload_failure_subsets (st : Station Sel Pol Geo) (pol : Pol) (s : Sel) (g : Geo)
+    (confFails selFails geoFails geoUnnamed : Bool) :
+    reload st (if confFails then .err else .ok pol) (if selFails then none else some s)
+        (if geoFails then .err else if geoUnnamed then .missing g else .ok g) =
+      .ok (if confFails then st else
+        { selector := if selFails then st.selector else s, policy := pol,
+          geoip := if geoFails then st.geoip else g }) := by
+  cases confFails <;> cases selFails <;> cases geoFails <;> cases geoUnnamed <;> rfl
+
+/-- **Any sequence of reloads, exactly**: as long as no configuration load panics, after the whole sequence
+every part is the version produced by the *last* reload in which that part loaded (`lastSelector`,
+`lastPolicy`, `lastGeoip` in `CJ.Model.Config`) — the failures of other parts, in the same or in later
+reloads, neither keep it out nor replace it. -/
+theorem reloads_eq_last_loaded (evs : List (Outcome Pol × Option Sel × GeoLoad Geo)) (st : Station Sel Pol Geo)
+    (hnp : ∀ ev ∈ evs, ev.1 ≠ .panic) :
+    reloads st evs = .ok ⟨lastSelector st.selector evs, lastPolicy st.policy evs, lastGeoip st.geoip evs⟩ :=
+  reloads_eq_last evs st hnp
+
+/-- the address policy in force after a sequence of reloads does not depend on what happened to the subnets
+files and the GeoIP databases: two sequences with the same configuration outcomes leave the same policy -/
+theorem policy_independent_of_other_parts (evs evs' : List (Outcome Pol × Option Sel × GeoLoad Geo))
+    (st : Station Sel Pol Geo) (hconf : evs.map (·.1) = evs'.map (·.1)) :
+    lastPolicy st.policy evs = lastPolicy st.policy evs' := by
+  induction evs generalizing evs' st with
+  | nil =>
+    cases evs' with
+    | nil => rfl
+    | cons _ _ => simp at hconf
+  | cons ev rest ih =>
+    cases evs' with
+    | nil => simp at hconf
+    | cons ev' rest' =>
+      obtain ⟨c, s, g⟩ := ev
+      obtain ⟨c', s', g'⟩ := ev'
+      simp only [List.map_cons, List.cons.injEq] at hconf
+      obtain ⟨hc, hr⟩ := hconf
+      subst hc
+      cases c with
+      | ok pol => simp only [lastPolicy]; exact ih rest' ⟨st.selector, pol, st.geoip⟩ hr
+      | err => simp only [lastPolicy]; exact ih rest' st hr
+      | panic => simp only [lastPolicy]; exact ih rest' st hr
+
 /-- a reload whose configuration does not load changes nothing at all -/
 theorem failed_reload_changes_nothing (st : Station Sel Pol Geo) (sel : Option Sel) (geo : GeoLoad Geo) :
     reload st (.err : Outcome Pol) sel geo = .ok st := rfl
@@ -319,6 +366,36 @@ theorem phantom_enforced_iff (cidr : String → Outcome Net) (re : String → Ou
     exact ⟨s, hs, n, hp, hc⟩
   · rintro ⟨s, hs, n, hp, hc⟩
     exact ⟨n, parsesTo_mem cidr raw.phantom parsed.phantom hp' s hs n hp, hc⟩
+
+/-- **An entry is enforced whatever else is in its list.**  Split each configured list at an arbitrary entry
+`s` (`pre ++ s :: post`): no matter which entries precede or follow it — repetitions of `s`, entries with the
+same network address and another prefix length, subnets containing it or contained in it, other spellings
+of the same subnet — in an accepted configuration `s` decides every address / host it covers: a blocklist
+entry refuses (no allowlist configured), a phantom-blocklist entry refuses, an allowlist entry permits, a
+pattern refuses. -/
+theorem entry_enforced_among_any_others (cidr : String → Outcome Net) (re : String → Outcome Pat)
+    (ifaces : Option (List Net)) (raw : Raw) (parsed : Parsed Net Pat)
+    (h : parseBlocklists cidr re ifaces raw = .ok parsed) (pre post : List String) (s : String)
+    (contains : Net → IP → Bool) (matchString : Pat → String → Bool) :
+    (raw.block = pre ++ s :: post → raw.allow = [] → ∀ n ip, cidr s = .ok n → contains n ip = true →
+        parsed.covertAddrBlocked contains ip = true) ∧
+    (raw.phantom = pre ++ s :: post → ∀ n ip, cidr s = .ok n → contains n ip = true →
+        parsed.phantomBlocked contains ip = true) ∧
+    (raw.allow = pre ++ s :: post → ∀ n ip, cidr s = .ok n → contains n ip = true →
+        parsed.covertAddrBlocked contains ip = false) ∧
+    (raw.domains = pre ++ s :: post → ∀ r host, re s = .ok r → matchString r host = true →
+        parsed.covertDomainBlocked matchString host = true) := by
+  refine ⟨?_, ?_, ?_, ?_⟩
+  · intro hl hno n ip hn hc
+    exact (blocklist_enforced_iff cidr re ifaces raw parsed h hno contains ip).mpr
+      (Or.inl ⟨s, by rw [hl]; simp, n, hn, hc⟩)
+  · intro hl n ip hn hc
+    exact (phantom_enforced_iff cidr re ifaces raw parsed h contains ip).mpr ⟨s, by rw [hl]; simp, n, hn, hc⟩
+  · intro hl n ip hn hc
+    have hne : raw.allow ≠ [] := by rw [hl]; simp
+    exact (allowlist_enforced_iff cidr re ifaces raw parsed h hne contains ip).mpr ⟨s, by rw [hl]; simp, n, hn, hc⟩
+  · intro hl r host hr hm
+    exact (domains_enforced_iff cidr re ifaces raw parsed h matchString host).mpr ⟨s, by rw [hl]; simp, r, hr, hm⟩
 
 /-- the address policy C06's admission model is evaluated with, built from the parsed configuration -/
 def toPolicy (p : Parsed Net Pat) : CJ.Covert.Policy Net Pat :=
@@ -439,9 +516,17 @@ def raw0 : Raw := { block := ["10.0.0.0/8", "fc00::/7 "], domains := ["localhost
 -- an accepted configuration (every entry parses) …
 example : parseBlocklists (fun _ => Outcome.ok 1) (fun _ => Outcome.ok 2) none raw0 = .ok ⟨[1, 1], [2], [], [1], true⟩ := by
   simp [parseBlocklists, parseAll, raw0]
+-- … two entries with one network address and different prefix lengths, narrow first: both are in the parsed list …
+example : parseBlocklists (fun s => if s = "10.0.0.0/24" then Outcome.ok 24 else .ok 8) (fun _ => Outcome.ok 0) none
+    { block := ["10.0.0.0/24", "10.0.0.0/8"], domains := [], phantom := [], allow := [], publicAddrs := false } =
+    .ok ⟨[24, 8], [], [], [], false⟩ := by
+  simp [parseBlocklists, parseAll]
 -- … a malformed pattern makes the load fail …
 example : parseBlocklists (fun _ => Outcome.ok 1) (fun _ => (Outcome.err : Outcome Nat)) none raw0 = .err := by
   simp [parseBlocklists, parseAll, raw0]
+-- … a reload whose GeoIP databases fail while policy and subnets load (the policy is the new one) …
+example : reload (⟨0, 0, 0⟩ : Station Nat Nat Nat) (.ok 1) (some 1) .err = .ok ⟨1, 1, 0⟩ := rfl
+example : lastPolicy (Sel := Nat) (Geo := Nat) 0 [(.ok 1, none, .err), (.err, some 2, .ok 2), (.ok 3, none, .err)] = 3 := rfl
 -- … a reload mixing a failed configuration load and a failed subnets load
 example : reloads (⟨0, 0, 0⟩ : Station Nat Nat Nat) [(.ok 1, none, .missing 1), (.err, some 2, .ok 2)] = .ok ⟨0, 1, 1⟩ := by
   simp [reloads, reload, onReload]
